@@ -205,7 +205,12 @@ static void runCase(uint64_t id, Rng rng, size_t nEvents, std::ostream &o, bool 
 	// current inputs
 	bool inPush = false, inPop = false;
 	std::string inData = toBits(0, w);
-	uint64_t inAfl = rng.below(N + 1), inAel = rng.below(N + 1);
+	// The flag outputs are checked from power-on. Until the almost-full register has seen its first non-reset push edge it
+	// holds its reset value '0', which is right for every level < N but not for the degenerate level == N ("at most N places
+	// free", constantly true): that level is only applied afterwards (C15_AF_LEVEL_N_AT_RESET=1 applies it from the start).
+	uint64_t finalAfl = rng.below(N + 1);
+	uint64_t inAfl = getenv("C15_AF_LEVEL_N_AT_RESET") ? N : rng.below(N), inAel = rng.below(N + 1);
+	bool pushEdgeSeen = false;
 	Mode mode = IDLE; size_t modeLeft = 0;
 	uint64_t counter = 1;
 
@@ -233,7 +238,7 @@ static void runCase(uint64_t id, Rng rng, size_t nEvents, std::ostream &o, bool 
 		if (kind == 0) { inData = toBits(rng.next(), w); }
 		else if (kind == 1) { inData = toBits(counter++, w); inData[rng.below(w)] = 'x'; }
 		else inData = toBits(counter++, w);
-		if (varyLevels) inAfl = rng.chance(1, 8) ? rng.below(2 * N) : rng.below(N + 1);
+		if (pushEdgeSeen) inAfl = varyLevels ? (rng.chance(1, 8) ? rng.below(2 * N) : rng.below(N + 1)) : finalAfl;
 	};
 	auto choosePop = [&](bool implEmpty) {
 		switch (mode) {
@@ -272,6 +277,7 @@ static void runCase(uint64_t id, Rng rng, size_t nEvents, std::ostream &o, bool 
 		  << " | " << full << ' ' << pvalid << ' ' << af << ' ' << psize
 		  << " | " << empty << ' ' << qvalid << ' ' << ae << ' ' << qsize << ' ' << peek << '\n';
 
+		if (pc && !pr) pushEdgeSeen = true;
 		if (!released) {
 			released = !spy.pushRst && !spy.popRst;
 			if (!released) continue; // keep idling while any reset is asserted
@@ -518,7 +524,7 @@ static void runArrayCase(uint64_t id, Rng rng, size_t nEvents, std::ostream &o) 
 
 // ---- TransactionalFifo (scl/TransactionalFifo.h), single clock ---------------------------------------
 //   case <id> mode=trans k= N= min= w= lat= lw= lr=
-//   x <rst> <push> <data> <pushCommit> <pushRollback> <cutoff> <pop> <popCommit> <popRollback> | <full> <pvalid> <psize> | <empty> <qvalid> <qsize> <peek>
+//   x <rst> <push> <data> <pushCommit> <pushRollback> <cutoff> <afLevel> <pop> <popCommit> <popRollback> <aeLevel> | <full> <pvalid> <psize> <af> | <empty> <qvalid> <qsize> <ae> <peek>
 // Wiring (order matters, the later call wins): IF(push) push; IF(pushCommit) commitPush(cutoff); IF(pushRollback) rollbackPush();
 //                                              IF(pop) pop;   IF(popCommit) commitPop();        IF(popRollback) rollbackPop();
 struct XTFifo : scl::TransactionalFifo<UInt> {
@@ -550,8 +556,8 @@ static void runTransCase(uint64_t id, Rng rng, size_t nEvents, std::ostream &o) 
 	DesignScope design;
 	Clock clock({ .absoluteFrequency = hlim::ClockRational(1'000'000, 1), .name = "clk" });
 	ClockScope cs(clock);
-	hlim::Node_Pin *pPush, *pData, *pPC, *pPR, *pCut, *pPop, *pQC, *pQR;
-	hlim::Node_Pin *oFull, *oPV, *oPS, *oEmpty, *oQV, *oQS, *oPeek;
+	hlim::Node_Pin *pPush, *pData, *pPC, *pPR, *pCut, *pPop, *pQC, *pQR, *pAfl, *pAel;
+	hlim::Node_Pin *oFull, *oPV, *oPS, *oEmpty, *oQV, *oQS, *oPeek, *oAf, *oAe;
 	size_t lw = 0, lr = 0;
 	try {
 		XTFifo fifo{ minDepth, UInt{ BitWidth(w) }, mkLat(lat) };
@@ -564,6 +570,8 @@ static void runTransCase(uint64_t id, Rng rng, size_t nEvents, std::ostream &o) 
 		auto ipPop = pinIn().setName("pop"); pPop = ipPop.node(); Bit pop = ipPop;
 		auto ipQC = pinIn().setName("pop_commit"); pQC = ipQC.node(); Bit popCommit = ipQC;
 		auto ipQR = pinIn().setName("pop_rollback"); pQR = ipQR.node(); Bit popRollback = ipQR;
+		auto ipAfl = pinIn(BitWidth(k + 1)).setName("af_level"); pAfl = ipAfl.node(); UInt afLevel = ipAfl;
+		auto ipAel = pinIn(BitWidth(k + 1)).setName("ae_level"); pAel = ipAel.node(); UInt aeLevel = ipAel;
 		IF(push) fifo.push(data);
 		IF(pushCommit) fifo.commitPush(cutoff);
 		IF(pushRollback) fifo.rollbackPush();
@@ -574,6 +582,8 @@ static void runTransCase(uint64_t id, Rng rng, size_t nEvents, std::ostream &o) 
 		oFull = pinOut(fifo.full()).setName("full").node();
 		oEmpty = pinOut(fifo.empty()).setName("empty").node();
 		oPeek = pinOut(peek).setName("peek").node();
+		oAf = pinOut(fifo.almostFull(afLevel)).setName("af").node();
+		oAe = pinOut(fifo.almostEmpty(aeLevel)).setName("ae").node();
 		fifo.generate();
 		oPV = pinOut(fifo.pushValid()).setName("push_valid").node();
 		oPS = pinOut(fifo.pushSize()).setName("push_size").node();
@@ -600,6 +610,8 @@ static void runTransCase(uint64_t id, Rng rng, size_t nEvents, std::ostream &o) 
 
 	bool push = false, pc = false, pr = false, pop = false, qc = false, qr = false;
 	uint64_t cutoff = 0;
+	bool varyLevels = rng.chance(1, 3), edgeSeen = false;
+	uint64_t finalAfl = rng.below(N + 1), afl = getenv("C15_AF_LEVEL_N_AT_RESET") ? N : rng.below(N), ael = rng.below(N + 1); // see runCase
 	std::string data = toBits(0, w);
 	uint64_t counter = 1;
 	size_t tentative = 0; // pushes accepted since the last push commit / rollback (bounds the cutoff)
@@ -609,8 +621,10 @@ static void runTransCase(uint64_t id, Rng rng, size_t nEvents, std::ostream &o) 
 	for (size_t ev = 0; ev < nEvents; ev++) {
 		set(pPush, push ? "1" : "0"); set(pData, data); set(pPC, pc ? "1" : "0"); set(pPR, pr ? "1" : "0"); set(pCut, toBits(cutoff, k + 1));
 		set(pPop, pop ? "1" : "0"); set(pQC, qc ? "1" : "0"); set(pQR, qr ? "1" : "0");
+		set(pAfl, toBits(afl, k + 1)); set(pAel, toBits(ael, k + 1));
 		sim.reevaluate();
 		std::string full = get(oFull), pv = get(oPV), ps = get(oPS), empty = get(oEmpty), qv = get(oQV), qs = get(oQS), peek = get(oPeek);
+		std::string af = get(oAf), ae = get(oAe);
 		bool rst = spy.pushRst;
 		spy.pushEdge = false;
 		size_t guard = 0;
@@ -619,9 +633,9 @@ static void runTransCase(uint64_t id, Rng rng, size_t nEvents, std::ostream &o) 
 			if (!spy.pushEdge) rst = spy.pushRst;
 			if (++guard > 1000) { o << "abort no-clock-edge\n"; break; }
 		}
-		o << "x " << (rst ? 1 : 0) << ' ' << (push ? 1 : 0) << ' ' << data << ' ' << (pc ? 1 : 0) << ' ' << (pr ? 1 : 0) << ' ' << cutoff << ' '
-		  << (pop ? 1 : 0) << ' ' << (qc ? 1 : 0) << ' ' << (qr ? 1 : 0)
-		  << " | " << full << ' ' << pv << ' ' << ps << " | " << empty << ' ' << qv << ' ' << qs << ' ' << peek << '\n';
+		o << "x " << (rst ? 1 : 0) << ' ' << (push ? 1 : 0) << ' ' << data << ' ' << (pc ? 1 : 0) << ' ' << (pr ? 1 : 0) << ' ' << cutoff << ' ' << afl << ' '
+		  << (pop ? 1 : 0) << ' ' << (qc ? 1 : 0) << ' ' << (qr ? 1 : 0) << ' ' << ael
+		  << " | " << full << ' ' << pv << ' ' << ps << ' ' << af << " | " << empty << ' ' << qv << ' ' << qs << ' ' << ae << ' ' << peek << '\n';
 		if (!released) { released = !spy.pushRst; if (!released) continue; }
 		// bookkeeping for the cutoff bound (statement order of generatePush)
 		if (pv == "1") tentative++;
@@ -642,6 +656,10 @@ static void runTransCase(uint64_t id, Rng rng, size_t nEvents, std::ostream &o) 
 			default: push = pop = pc = pr = qc = qr = false;
 		}
 		cutoff = (pc && tentative > 0 && rng.chance(1, 6)) ? rng.range(1, tentative) : 0;
+		// the level N is only applied once the flag register has seen a non-reset edge (see runCase)
+		if (!rst) edgeSeen = true;
+		if (edgeSeen) afl = varyLevels ? (rng.chance(1, 8) ? rng.below(2 * N) : rng.below(N + 1)) : finalAfl;
+		if (varyLevels) ael = rng.chance(1, 8) ? rng.below(2 * N) : rng.below(N + 1);
 		data = rng.chance(1, 16) ? toBits(rng.next(), w) : toBits(counter++, w);
 	}
 	o << "end\n";
